@@ -177,12 +177,17 @@ func fieldsMeetSymmetrically(fi *FuncInfo, a, b types.Object, qtype, field strin
 	ma, mb := taintOf(fi, a, qtype, field), taintOf(fi, b, qtype, field)
 	meet := false
 	probeAB, probeBA := false, false
+	lastLenMeet, lastOneWayProbe = false, false
 	ast.Inspect(fi.Decl.Body, func(n ast.Node) bool {
 		switch x := n.(type) {
 		case *ast.BinaryExpr:
 			if x.Op == token.EQL || x.Op == token.NEQ {
 				if (ma(x.X) && mb(x.Y)) || (mb(x.X) && ma(x.Y)) {
-					meet = true
+					if isLenCall(x.X) || isLenCall(x.Y) {
+						lastLenMeet = true // lengths meet, contents do not
+					} else {
+						meet = true
+					}
 				}
 			}
 		case *ast.CallExpr:
@@ -217,7 +222,21 @@ func fieldsMeetSymmetrically(fi *FuncInfo, a, b types.Object, qtype, field strin
 		}
 		return true
 	})
+	lastOneWayProbe = !meet && (probeAB != probeBA)
 	return meet || (probeAB && probeBA)
+}
+
+// set by fieldsMeetSymmetrically for its last call: the two sides' lengths were
+// compared / containment was probed in one direction only
+var lastLenMeet, lastOneWayProbe bool
+
+func isLenCall(e ast.Expr) bool {
+	call, ok := ast.Unparen(e).(*ast.CallExpr)
+	if !ok || len(call.Args) != 1 {
+		return false
+	}
+	id, ok := call.Fun.(*ast.Ident)
+	return ok && (id.Name == "len" || id.Name == "cap")
 }
 
 // fieldInfluencesResult reports whether a read of root.<…>.field (field
@@ -398,8 +417,17 @@ func runC03(c *Ctx) {
 		fb := fieldInfluencesResult(iei, pb, "internal/discovery.Entry", "DisabledChecks")
 		c.Check(fa && fb, "C03-R1", "isEntryIdentical:DisabledChecks", iei.Decl.Pos(), "both sides influence the result", "file-level disabled checks of one side no longer influence isEntryIdentical")
 		if fa && fb {
-			c.Check(fieldsMeetSymmetrically(iei, pb, pa, "internal/discovery.Entry", "DisabledChecks"), "C03-R1", "isEntryIdentical:DisabledChecks:compared symmetrically", iei.Decl.Pos(), "symmetric",
-				"the disabled-check lists are compared in one direction only: adding (or removing) a file/disable comment leaves the rules unmodified")
+			sym := fieldsMeetSymmetrically(iei, pb, pa, "internal/discovery.Entry", "DisabledChecks")
+			detail := "symmetric"
+			if !sym && lastLenMeet && lastOneWayProbe {
+				// equal lengths + containment in one direction is a set comparison
+				// exactly when neither list has duplicates: the producer must dedupe
+				if c03ProducerDedupes(c.P) {
+					sym, detail = true, "equal length and one-way containment over lists the producer keeps duplicate-free"
+				}
+			}
+			c.Check(sym, "C03-R1", "isEntryIdentical:DisabledChecks:compared symmetrically", iei.Decl.Pos(), detail,
+				"the disabled-check lists are not compared as sets in both directions (one-way containment, or equal length plus one-way containment over lists that may hold duplicates): replacing one file/disable comment by another can leave every rule of the file unmodified")
 		}
 	}
 	// wasMoved is defined on the path the rule is found under (Path.Name) of both sides
@@ -992,6 +1020,7 @@ func c03StateTables(c *Ctx, rule string) {
 // into a modification and rule/dependency never runs).
 func c03Pairing(c *Ctx, rule string) {
 	p := c.P
+	c03Conservation(c, rule)
 	if frn := c.MustFunc(rule, "internal/discovery.findRulesByName"); frn != nil {
 		finfo := frn.Pkg.TypesInfo
 		fl := p.NewFlow(frn)
@@ -1079,4 +1108,122 @@ func litFieldOr(cl *ast.CompositeLit, name string) ast.Expr {
 		return v
 	}
 	return &ast.BadExpr{}
+}
+
+// c03ProducerDedupes: every append to the per-file disabled-check list in
+// discovery.readRules is guarded by !slices.Contains(list, value).
+func c03ProducerDedupes(p *Prog) bool {
+	fi := p.Func("internal/discovery.readRules")
+	if fi == nil {
+		return false
+	}
+	info := fi.Pkg.TypesInfo
+	pm := parentMap(fi.Decl.Body)
+	// the list: the local stored into Entry.DisabledChecks
+	var list types.Object
+	for _, cl := range compositeLits(info, fi.Decl.Body, "internal/discovery.Entry") {
+		if v := litField(cl, "DisabledChecks"); v != nil {
+			list = objOf(info, v)
+		}
+	}
+	if list == nil {
+		return false
+	}
+	n, good := 0, 0
+	ast.Inspect(fi.Decl.Body, func(nd ast.Node) bool {
+		as, ok := nd.(*ast.AssignStmt)
+		if !ok || len(as.Lhs) != 1 || len(as.Rhs) != 1 || objOf(info, as.Lhs[0]) != list {
+			return true
+		}
+		call, ok := as.Rhs[0].(*ast.CallExpr)
+		if !ok || exprStr(call.Fun) != "append" || len(call.Args) != 2 {
+			return true
+		}
+		n++
+		for _, a := range lexicalGuards(pm, as, fi.Decl.Body) {
+			g, ok := ast.Unparen(a.E).(*ast.CallExpr)
+			if ok && !a.Truth && len(g.Args) == 2 && isObj(info, g.Args[0], list) && sameExpr(info, g.Args[1], call.Args[1]) {
+				if fn := Callee(info, g); fn != nil && fn.Pkg() != nil && fn.Pkg().Path() == "slices" && fn.Name() == "Contains" {
+					good++
+				}
+			}
+		}
+		return true
+	})
+	return n >= 1 && n == good
+}
+
+// c03Conservation: matchEntries takes same-named candidates out of the pool of
+// base-branch rules (findRulesByName returns the rest and the candidates). Each
+// candidate taken out is either paired with the HEAD rule (exactly one
+// candidate) or put back: in the switch on the number of candidates every arm
+// for two or more appends ALL of them back to the pool. Otherwise untouched
+// namesakes vanish from the pool: they are reported as added instead of
+// unmodified, and the edited rule's old version is never reported as removed.
+func c03Conservation(c *Ctx, rule string) {
+	me := c.MustFunc(rule, "internal/discovery.matchEntries")
+	frn := c.P.Func("internal/discovery.findRulesByName")
+	if me == nil || frn == nil {
+		return
+	}
+	info := me.Pkg.TypesInfo
+	var pool, cands types.Object
+	ast.Inspect(me.Decl.Body, func(n ast.Node) bool {
+		as, ok := n.(*ast.AssignStmt)
+		if !ok || len(as.Lhs) != 2 || len(as.Rhs) != 1 {
+			return true
+		}
+		if call, ok := as.Rhs[0].(*ast.CallExpr); ok && Callee(info, call) == frn.Obj {
+			pool, cands = objOf(info, as.Lhs[0]), objOf(info, as.Lhs[1])
+		}
+		return true
+	})
+	if pool == nil || cands == nil {
+		c.Undecided(rule, "matchEntries:pool, candidates := findRulesByName(...)", me.Decl.Pos(), "call not found")
+		return
+	}
+	var sw *ast.SwitchStmt
+	for _, s := range findSwitches(me.Decl.Body, func(s *ast.SwitchStmt) bool {
+		call, ok := ast.Unparen(s.Tag).(*ast.CallExpr)
+		return s.Tag != nil && ok && exprStr(call.Fun) == "len" && len(call.Args) == 1 && isObj(info, call.Args[0], cands)
+	}) {
+		sw = s
+	}
+	if sw == nil {
+		c.Undecided(rule, "matchEntries:switch on the number of candidates", me.Decl.Pos(), "not found")
+		return
+	}
+	okAll, n := true, 0
+	for _, st := range sw.Body.List {
+		cc := st.(*ast.CaseClause)
+		small := len(cc.List) > 0
+		for _, e := range cc.List {
+			if k, isC := constInt(info, e); !isC || k > 1 {
+				small = false
+			}
+		}
+		if small {
+			continue // zero candidates: nothing taken; one candidate: it is paired
+		}
+		n++
+		back := false
+		for _, b := range cc.Body {
+			ast.Inspect(b, func(m ast.Node) bool {
+				as, ok := m.(*ast.AssignStmt)
+				if !ok || len(as.Lhs) != 1 || len(as.Rhs) != 1 || !isObj(info, as.Lhs[0], pool) {
+					return true
+				}
+				call, ok := as.Rhs[0].(*ast.CallExpr)
+				if ok && exprStr(call.Fun) == "append" && len(call.Args) == 2 && call.Ellipsis.IsValid() && isObj(info, call.Args[0], pool) && isObj(info, call.Args[1], cands) {
+					back = true
+				}
+				return true
+			})
+		}
+		if !back {
+			okAll = false
+		}
+	}
+	c.Check(okAll && n >= 1, rule, "matchEntries:ambiguous candidates are put back into the pool", sw.Pos(), itoa(n)+" arm(s) for two or more candidates",
+		"when a HEAD rule has several same-named base rules, the candidates taken out of the pool are not all appended back: untouched namesakes are then classified as added (and checked as new), and the old version of the edited one is never reported as removed")
 }
